@@ -6,7 +6,7 @@ from ..index import AnalysisError, walk_own, walk_all, unparse, short, parent, a
 from ..cfg import cfg_of
 from .. import nf, lib
 
-FLOW_METHODS = {'append', 'extend', 'update', 'add', 'insert', 'union'}
+FLOW_METHODS = {'append', 'extend', 'update', 'add', 'insert'}      # methods that put their argument INTO the receiver
 
 
 def param_names(fn):
